@@ -147,6 +147,15 @@ CHECKS.update({
             BASE_NOTE + " The product covers each field's value set, not all cross-field combinations.", "3/C12"),
 })
 
+CHECKS.update({
+    "C18": ("exploration",
+            "exhaustive three-way runtime comparison (C++ under ASan+UBSan, Python, datetime calendar oracle) over expressions admitted by the executed transformer pass",
+            "The admission predicate is the real transformer pass run on every ON string of the grammar x 12 months; every "
+            "admitted expression x every year 1873..2126 (1.39 M cases) is resolved by both implementations and the calendar. "
+            "Finite domain, enumerated completely in both tiers.",
+            BASE_NOTE + " Oracle: Python datetime/calendar.", "3/C18"),
+})
+
 PLANNED = {
 }
 
